@@ -124,6 +124,9 @@ func (v validateIdentitySet) Validate(value interface{}) error {
 }
 
 func (v validateIdentitySet) matches(row *Identity) bool {
+	if row == nil {
+		return false
+	}
 	return (v.typ == cbc.CodeEmpty || row.Type == v.typ) &&
 		(len(v.keys) == 0 || row.Key.In(v.keys...))
 }
@@ -142,7 +145,7 @@ func (v validateIdentitySet) String() string {
 // IdentityForType helps return the identity with a matching type code.
 func IdentityForType(in []*Identity, typ cbc.Code) *Identity {
 	for _, v := range in {
-		if v.Type == typ {
+		if v != nil && v.Type == typ {
 			return v
 		}
 	}
@@ -152,7 +155,7 @@ func IdentityForType(in []*Identity, typ cbc.Code) *Identity {
 // IdentityForKey helps return the identity with the first matching key.
 func IdentityForKey(in []*Identity, key ...cbc.Key) *Identity {
 	for _, v := range in {
-		if v.Key.In(key...) {
+		if v != nil && v.Key.In(key...) {
 			return v
 		}
 	}
@@ -166,7 +169,7 @@ func AddIdentity(in []*Identity, i *Identity) []*Identity {
 		return []*Identity{i}
 	}
 	for _, v := range in {
-		if v.Type == i.Type && v.Key == i.Key {
+		if v != nil && v.Type == i.Type && v.Key == i.Key {
 			*v = *i // copy in place
 			return in
 		}
